@@ -578,6 +578,22 @@ var genScenarios = map[string]func(g *Gen) []scriptStep{
 			opStep(&Op{Kind: "GetSub", Name: sS0}), pullStep(sS0, 10), pullStep(sS1, 10),
 		}
 	},
+	// a retry policy REPLACED by one that names only one bound: the other bound is gone (not kept
+	// from the old policy), and the next lease follows the new policy (C04, C17)
+	"retry-replaced": func(g *Gen) []scriptStep {
+		return []scriptStep{
+			opStep(&Op{Kind: "CreateTopic", Name: sT0}),
+			subStep(&SubReq{Name: sS0, Topic: sT0, Retry: &[2]*time.Duration{dptr(300 * time.Millisecond), dptr(400 * time.Millisecond)}}),
+			subStep(&SubReq{Name: sS1, Topic: sT0, Retry: &[2]*time.Duration{dptr(2 * time.Second), dptr(3 * time.Second)}}),
+			opStep(&Op{Kind: "UpdateSub", Sub: &SubReq{Name: sS0, Topic: sT0, Retry: &[2]*time.Duration{dptr(30 * time.Second), nil}}, Paths: []string{"retry_policy"}}),
+			opStep(&Op{Kind: "UpdateSub", Sub: &SubReq{Name: sS1, Topic: sT0, Retry: &[2]*time.Duration{nil, dptr(1 * time.Second)}}, Paths: []string{"retry_policy"}}),
+			opStep(&Op{Kind: "GetSub", Name: sS0}), opStep(&Op{Kind: "GetSub", Name: sS1}),
+			pubStep(sT0, "", ""), pullStep(sS0, 10), pullStep(sS1, 10),
+			advStep(5 * time.Second), pullStep(sS0, 10), pullStep(sS1, 10),
+			opStep(&Op{Kind: "UpdateSub", Sub: &SubReq{Name: sS0, Topic: sT0}, Paths: []string{"retry_policy"}}),
+			advStep(40 * time.Second), pullStep(sS0, 10), advStep(11 * time.Second), pullStep(sS0, 10),
+		}
+	},
 	"ordered-replay": func(g *Gen) []scriptStep {
 		return []scriptStep{
 			opStep(&Op{Kind: "CreateTopic", Name: sT0}),
@@ -723,7 +739,7 @@ var genScenarios = map[string]func(g *Gen) []scriptStep{
 	},
 }
 
-var scenarioNames = []string{"ordered-replay", "ordered-prune", "dl-then-prune-messages", "prune-expired-minage", "nack-mixed-attempts", "nack-after-ack-dl", "dl-shared-target", "filter-literals", "ttl-raised", "prune-topics-batch-one", "dl-deleted-topic", "dl-ordered-target", "dl-filtered-target", "snapshot-bystander", "seek-revive-late", "idle-expired-live", "filter-replaced", "ordered-chain", "lease-changes"}
+var scenarioNames = []string{"ordered-replay", "ordered-prune", "retry-replaced", "dl-then-prune-messages", "prune-expired-minage", "nack-mixed-attempts", "nack-after-ack-dl", "dl-shared-target", "filter-literals", "ttl-raised", "prune-topics-batch-one", "dl-deleted-topic", "dl-ordered-target", "dl-filtered-target", "snapshot-bystander", "seek-revive-late", "idle-expired-live", "filter-replaced", "ordered-chain", "lease-changes"}
 
 // scenariosFor lists the templates a generator profile may start with
 func scenariosFor(profile string) []string {
@@ -735,7 +751,7 @@ func scenariosFor(profile string) []string {
 	case "names":
 		return []string{"idle-expired-live", "topic-recreated"}
 	case "config":
-		return []string{"filter-replaced", "idle-expired-live", "config-reset-each-field", "filter-literals", "ttl-raised", "seek-retention"}
+		return []string{"filter-replaced", "idle-expired-live", "config-reset-each-field", "filter-literals", "ttl-raised", "seek-retention", "retry-replaced"}
 	case "c15":
 		// no reviving seeks in the paired histories
 		return []string{"ordered-prune", "dl-then-prune-messages", "prune-expired-minage", "prune-topics-batch-one", "dl-shared-target", "dl-deleted-topic", "dl-ordered-target", "dl-filtered-target", "idle-expired-live", "filter-replaced"}
